@@ -55,7 +55,8 @@ def plan(num, tier, seed):
         {'oktas': [8], 'msa': ['justbelow', 0], 'h0': 10698.0},
         {'oktas': [3, 6], 'msa': ['tinyabove', 1], 'h0': 1070.0}, {'oktas': [6], 'msa': ['ulpabove', 0], 'h0': 9999.95},
         {'oktas': [2, 8], 'msa': ['ulpbelow', 1], 'h0': 2500.0},
-        {'oktas': [8], 'msa': None, 'h0': -0.0}, {'oktas': [3, 8], 'msa': ['above'], 'h0': -0.0, 'nce': 2},
+        {'oktas': [8], 'msa': None, 'h0': -0.0}, {'oktas': [8], 'msa': None, 'h0': -0.0, 'prm_over': {'BASE_LVL_HEIGHT_PERC': 100.0}},
+        {'oktas': [5], 'msa': None, 'h0': -0.0, 'prm_over': {'BASE_LVL_HEIGHT_PERC': 50.0}, 'nce': 2}, {'oktas': [3, 8], 'msa': ['above'], 'h0': -0.0, 'nce': 2},
     ]
     for j, k in enumerate(combos):
         out.append({'fam': 'flat', 's': seed, 'p': num, 'i': 100000 + j, 'k': k})
@@ -63,6 +64,8 @@ def plan(num, tier, seed):
     for i in range(nref):        # real-world reference scenes of the repository (perturbed), random parameters
         out.append({'fam': 'refdata', 's': seed, 'p': num, 'i': 700000 + i,
                     'k': {'file': i % 17, 'perturb': (i // 17) % 5, 'default_prms': i < 17}})
+    for i in range(10 if tier == 'quick' else 150):
+        out.append({'fam': 'late_msa_edit', 's': seed, 'p': num, 'i': 600000 + i})
     # table-driven: every okta table up to n layers x MSA positions x flag, real metar_msg
     for n in range(0, z['tables_n'] + 1):
         parts = 1 if n < 3 else (8 if n == 3 else 64)
@@ -158,9 +161,54 @@ def check_tables(desc, props):
             'viol': viol[:20], 'counters': {'table_msgs': evals, 'tables': len(mine)}, 'sample': first}
 
 
+def check_late_msa_edit(desc, props):
+    """The MSA is fixed at chunk construction: parameters set through the global dictionary (no per-call
+    prms), layers between MSA and MSA+buffer, then the global MSA is edited in place / reset before
+    metar_msg() is called on the existing chunk."""
+    import ampycloud
+    from ampycloud import dynamic
+    import warnings
+    rng = scenes.rng_for(desc['s'], desc['p'], desc['i'])
+    oktas = [int(x) for x in rng.choice([2, 4, 6, 8], int(rng.integers(2, 4)))]
+    sc, prm = pipeline.flat_okta_case(rng, {'oktas': oktas, 'msa': ['between', 0], 'buffer': 5000.0, 'h0': 1070.0})
+    viol, tags = [], set()
+    evals = 0
+    try:
+        with warnings.catch_warnings():
+            warnings.simplefilter('ignore')
+            ampycloud.reset_prms()
+            from .c12 import nested_edit
+            nested_edit(dynamic.AMPYCLOUD_PRMS, prm['call'])
+            msa0 = dynamic.AMPYCLOUD_PRMS['MSA']
+            ch = ampycloud.run(scenes.frame(sc))
+            first = {w: ch.metar_msg(w) for w in obs.WHICH}
+            for edit in ('raise', 'none', 'reset'):
+                if edit == 'raise':
+                    dynamic.AMPYCLOUD_PRMS['MSA'] = msa0 + 4000.0
+                elif edit == 'none':
+                    dynamic.AMPYCLOUD_PRMS['MSA'] = None
+                else:
+                    ampycloud.reset_prms('MSA')
+                for w in obs.WHICH:
+                    msg = ch.metar_msg(w)
+                    evals += 1
+                    nv = len(viol)
+                    oracles.check_message(msg, getattr(ch, w), msa0, ch.clouds_above_msa_buffer, viol, tags, which=w, props=props)
+                    for v in viol[nv:]:
+                        v.update(msa_at_construction=msa0, global_msa_now=dynamic.AMPYCLOUD_PRMS['MSA'], first_message=first[w])
+    finally:
+        ampycloud.reset_prms()
+    tags.add('late_msa_edit')
+    return {'evals': evals, 'nontrivial': [obs.case_hash('late', desc['i'], j) for j in range(evals)], 'tags': sorted(tags),
+            'viol': viol[:10], 'counters': {'runs': 1},
+            'sample': {'workload': 'global MSA edited after run()', 'oktas': oktas, 'msa_at_construction': msa0, 'messages': first} if desc['i'] % 5 == 0 else None}
+
+
 def check(desc, props):
     if desc['fam'] == 'tables':
         return check_tables(desc, props)
+    if desc['fam'] == 'late_msa_edit':
+        return check_late_msa_edit(desc, props)
     case = pipeline.materialise(desc)
     run = pipeline.execute(case)
     viol, tags = [], set()
@@ -172,7 +220,7 @@ def check(desc, props):
     c = run.chunk
     _, n_above = oracles.expected_crop(run.df, run.eff)
     for w in obs.WHICH:
-        oracles.check_message(run.msgs[w], getattr(c, w), c.msa, c.clouds_above_msa_buffer, viol, tags,
+        oracles.check_message(run.msgs[w], getattr(c, w), run.eff['MSA'], c.clouds_above_msa_buffer, viol, tags,
                               which=w, n_hits_above=n_above, max_hits_okta0=run.eff['MAX_HITS_OKTA0'],
                               props=props)
         res['evals'] += 1
